@@ -48,6 +48,12 @@ def is_err(x):
     return isinstance(x, xl.Err)
 
 
+def _step(ck, text):
+    """announce the next risky call to the parent process (no-op outside a child)"""
+    if hasattr(ck, 'step'):
+        ck.step(text)
+
+
 # ------------------------------------------------------------------------------------------------------------
 # elements
 # ------------------------------------------------------------------------------------------------------------
@@ -110,6 +116,7 @@ def check_elements(ck, X, F, tier):
 # indexed catalogues (NIST compounds, radionuclides)
 # ------------------------------------------------------------------------------------------------------------
 def check_indexed(ck, X, F, tier, tag, lister, getter, macros, prefix):
+    _step(ck, '%s: obtain the name list' % tag)
     lst = lister()
     if is_err(lst):
         ck.violation('c15:%s:list-failed' % tag, 'the name list could not be obtained: %r' % lst, None)
@@ -128,7 +135,9 @@ def check_indexed(ck, X, F, tier, tag, lister, getter, macros, prefix):
     F.ok(tag + ':names-unique', N)
     entries = {}
     for i, nm in enumerate(names):
+        _step(ck, '%s: lookup by index %d and free' % (tag, i))
         bi = getter(i)
+        _step(ck, '%s: lookup by name %r and free' % (tag, nm))
         bn = getter(nm)
         if is_err(bi):
             ck.violation('c15:%s:by-index-fails-inside-range' % tag, 'lookup by index %d failed: %r' % (i, bi), dict(index=i, listed_name=nm))
@@ -159,7 +168,7 @@ def check_indexed(ck, X, F, tier, tag, lister, getter, macros, prefix):
         else:
             F.ok(tag + ':index-outside-refused')
     for nm in [None, '', 'no such entry', names[0] + '\x01' if names else 'x']:
-        r = getter(nm) if nm is not None else getter(None)
+        r = getter(nm)
         if not is_err(r):
             ck.violation('c15:%s:unknown-name-accepted' % tag, 'lookup by name %r returned an entry' % (nm,), dict(name=nm, returned_name=r.get('name')))
         else:
@@ -286,6 +295,7 @@ def check_crystals(ck, X, F, tier, st):
                              (X.num('AtomicWeight', Z), X.num('FF_Rayl', Z, 0.0), X.num('Fi', Z, 10.0), X.num('Fii', Z, 10.0)))
         return data_ok[Z]
     for nm in names:
+        _step(ck, 'crystal: lookup %r, copy, free both' % nm)
         g = X.get_crystal(nm)
         if is_err(g):
             ck.violation('c15:crystal:listed-name-not-found', 'Crystal_GetCrystal(%r) failed: %r' % (nm, g), dict(name=nm)); continue
@@ -428,27 +438,29 @@ def _overlap(b1, b2):
     return out
 
 
-def deepcopy_child(X, tag, keys, out):
-    """runs in the forked child: keys = list of (key_a, key_b) ways to address the same entry"""
+def deepcopy_child(X, tag, c):
+    """runs in the forked child; every entry is addressed in all available ways (index/index, index/name, name/name)"""
     K = Kind(X, tag)
     n_seq = 0
-    def emit(**kw):
-        os.write(out, (json.dumps(kw) + '\n').encode())
+    emit = c.emit
+    emit(step='%s: obtain the name list' % tag)
+    lst = {'nist': X.nist_list, 'nuclide': X.nuclide_list, 'crystal': X.crystal_list}[tag]()
+    names = [] if is_err(lst) else lst['names']
+    if tag == 'crystal':
+        keys = [(n, n) for n in names]
+    else:
+        stride = 9 if tag == 'nist' else 1
+        keys = [(i, i) for i in range(len(names))] + [(i, names[i]) for i in range(len(names))] + \
+               [(names[i], names[i]) for i in range(0, len(names), stride)]
     for j, (ka, kb) in enumerate(keys):
         for order in (0, 1):
-            emit(step='%s %r/%r: baseline lookup' % (tag, ka, kb))
-            p0 = K.lookup(ka)
-            if p0 is None:
-                emit(viol='c15:deep-copy:lookup-failed:%s' % tag, what='lookup of %r failed inside the deep-copy sequence' % (ka,), witness=dict(key=ka))
-                break
-            base = K.snap(p0)
-            K.free(p0)
             emit(step='%s %r/%r: two live lookups' % (tag, ka, kb))
             p1, p2 = K.lookup(ka), K.lookup(kb)
             if p1 is None or p2 is None:
-                emit(viol='c15:deep-copy:lookup-failed:%s' % tag, what='second lookup of %r / %r failed' % (ka, kb), witness=dict(keys=[ka, kb]))
+                emit(viol='c15:deep-copy:lookup-failed:%s' % tag, what='lookup of %r / %r failed inside the deep-copy sequence' % (ka, kb), witness=dict(keys=[ka, kb]))
                 break
-            if K.snap(p1) != base or K.snap(p2) != base:
+            base = K.snap(p2)
+            if K.snap(p1) != base:
                 emit(viol='c15:deep-copy:repeated-lookup-differs:%s' % tag, what='two lookups of the same entry (%r, %r) differ' % (ka, kb), witness=dict(keys=[ka, kb]))
             ov = _overlap(K.blocks(p1), K.blocks(p2))
             if ov:
@@ -491,14 +503,13 @@ def deepcopy_child(X, tag, keys, out):
             if p5 is not None:
                 K.free(p5)
             n_seq += 1
-    emit(done=n_seq, calls=n_seq * 7)
+    return dict(sequences=n_seq, calls=n_seq * 5 + 1)
 
 
-def strings_child(X, tag, out):
+def strings_child(X, c):
     """name lists and symbol strings are caller-owned too: scribble, free, ask again"""
     lib = X.lib
-    def emit(**kw):
-        os.write(out, (json.dumps(kw) + '\n').encode())
+    emit = c.emit
     def raw_list(which):
         n = C.c_int(-1)
         if which == 'nist':
@@ -573,11 +584,28 @@ def strings_child(X, tag, out):
         if lib.SymbolToAtomicNumber(base, None) != Z:
             emit(viol='c15:deep-copy:catalogue-changed:symbol', what='after writing into the symbol of Z=%d, SymbolToAtomicNumber(%r) no longer returns it' % (Z, base.decode()), witness=dict(Z=Z))
         n_seq += 1
-    emit(done=n_seq, calls=n_seq * 4)
+    return dict(sequences=n_seq, calls=n_seq * 4)
 
 
-def run_child(ck, tag, fn):
-    """fork, run fn(write_fd) in the child, route its findings; abnormal exit = violation. returns (sequences, calls)"""
+class ChildCk:
+    """stand-in for common.Check inside a forked child: findings travel to the parent as JSON lines"""
+
+    def __init__(self, fd):
+        self.fd = fd
+
+    def emit(self, **kw):
+        os.write(self.fd, (json.dumps(kw, default=str) + '\n').encode())
+
+    def violation(self, key, what, witness=None):
+        self.emit(viol=key, what=what, witness=witness)
+
+    def step(self, text):
+        self.emit(step=text)
+
+
+def run_child(ck, crash_key, what, fn):
+    """fork, run fn(ChildCk) in the child (its return value is the payload), route its findings to ck.
+    Abnormal exit of the child = violation crash_key (+ ':' + phase if the child announced one). Returns payload or None."""
     import sys
     sys.stdout.flush(); sys.stderr.flush()
     r, w = os.pipe()
@@ -589,10 +617,15 @@ def run_child(ck, tag, fn):
             os.close(r)
             os.dup2(errf.fileno(), 2)
             signal.alarm(300)
-            fn(w)
+            c = ChildCk(w)
+            try:
+                c.emit(done=fn(c))
+            except common.Inconclusive as e:
+                c.emit(inconclusive=str(e))
         except BaseException as e:          # a python-level failure of the harness, not of the library
             try:
-                os.write(w, (json.dumps(dict(harness_error=repr(e))) + '\n').encode())
+                import traceback
+                os.write(w, (json.dumps(dict(harness_error=repr(e) + ' ' + traceback.format_exc()[-600:])) + '\n').encode())
             except Exception:
                 pass
             rc = 3
@@ -600,13 +633,13 @@ def run_child(ck, tag, fn):
     os.close(w)
     buf = b''
     while True:
-        b = os.read(r, 65536)
+        b = os.read(r, 1 << 16)
         if not b:
             break
         buf += b
     os.close(r)
     _, status = os.waitpid(pid, 0)
-    last, done, calls, herr = None, None, 0, None
+    last, phase, done, herr, inc = None, None, None, None, None
     for line in buf.decode('utf8', 'replace').split('\n'):
         if not line.strip():
             continue
@@ -616,30 +649,43 @@ def run_child(ck, tag, fn):
             continue
         if 'step' in m:
             last = m['step']
+            phase = m.get('phase', phase)
         elif 'viol' in m:
             ck.violation(m['viol'], m['what'], m.get('witness'))
         elif 'done' in m:
-            done, calls = m['done'], m.get('calls', 0)
+            done = m['done']
         elif 'harness_error' in m:
             herr = m['harness_error']
+        elif 'inconclusive' in m:
+            inc = m['inconclusive']
     if herr is not None:
-        raise common.Inconclusive('deep-copy child (%s) failed in the harness: %s (last step: %s)' % (tag, herr, last))
+        raise common.Inconclusive('child process (%s) failed in the harness: %s (last step: %s)' % (what, herr, last))
+    if inc is not None:
+        raise common.Inconclusive(inc)
     errf.seek(0)
     tail = errf.read().decode('utf8', 'replace')[-400:]
     errf.close()
     if os.WIFSIGNALED(status) or (os.WIFEXITED(status) and os.WEXITSTATUS(status) != 0) or done is None:
         sig = os.WTERMSIG(status) if os.WIFSIGNALED(status) else None
         how = ('killed by signal %d (%s)' % (sig, signal.Signals(sig).name)) if sig else 'exit status %r' % (os.WEXITSTATUS(status) if os.WIFEXITED(status) else status)
-        key = 'c15:deep-copy:hang:%s' % tag if sig == signal.SIGALRM else 'c15:deep-copy:crash:%s' % tag
-        ck.violation(key, 'the process running the mutate/free sequences on %s results died: %s' % (tag, how),
-                     dict(last_step=last, stderr=tail.strip()))
-        return 0, 0
-    return done, calls
+        key = crash_key.replace(':crash', ':hang') if sig == signal.SIGALRM else crash_key
+        if phase:
+            key += ':' + phase
+        ck.violation(key, 'the process %s died: %s' % (what, how), dict(last_step=last, stderr=tail.strip()))
+        return None
+    return done
 
 
 # ------------------------------------------------------------------------------------------------------------
 # second executor: the same lookups (lookup, read every member, free) under ASan+UBSan
 # ------------------------------------------------------------------------------------------------------------
+def _san_class(line):
+    """'AddressSanitizer: attempting free on address which was not malloc()-ed: 0x... in thread T0' -> class without numbers"""
+    t = re.split(r':? 0x| in thread', line)[0]
+    t = re.sub(r'^(AddressSanitizer|LeakSanitizer): ', '', t)
+    return re.sub(r'\d+', 'N', t)[:70].strip()
+
+
 def asan_pass(ck, F, nist_names, nist, nucl_names, nucl, crystal_names, crystal_vol, syms, st):
     san = ('abort_on_error=0:halt_on_error=1:detect_leaks=1:allocator_may_return_null=1:detect_stack_use_after_return=0:'
            'malloc_context_size=12:exitcode=99')
@@ -661,7 +707,7 @@ def asan_pass(ck, F, nist_names, nist, nucl_names, nucl, crystal_names, crystal_
             r = L.special(name, **kw)
         except execlib.ExecCrash as x:
             m = re.search(r'(AddressSanitizer|LeakSanitizer|runtime error)[^\n]*', x.tail)
-            cls = re.sub(r'0x[0-9a-f]+|\d+', 'N', m.group(0))[:80] if m else 'rc=%d' % x.rc
+            cls = _san_class(m.group(0)) if m else 'rc=%d' % x.rc
             ck.violation('c15:asan:%s:%s' % (name, cls.replace(' ', '-')), 'the instrumented executor died while looking up and freeing every %s entry: %s' % (tag, m.group(0) if m else 'rc=%d' % x.rc),
                          dict(function=name, tail=x.tail[-1200:]))
             return
@@ -708,67 +754,112 @@ def asan_pass(ck, F, nist_names, nist, nucl_names, nucl, crystal_names, crystal_
                 F.ok('asan:AtomicNumberToSymbol')
     except execlib.ExecCrash as x:
         m = re.search(r'(AddressSanitizer|LeakSanitizer|runtime error)[^\n]*', x.tail)
-        ck.violation('c15:asan:crystal-or-symbol:%s' % (re.sub(r'0x[0-9a-f]+|\d+', 'N', m.group(0))[:80].replace(' ', '-') if m else 'rc=%d' % x.rc),
+        ck.violation('c15:asan:crystal-or-symbol:%s' % (_san_class(m.group(0)).replace(' ', '-') if m else 'rc=%d' % x.rc),
                      'the instrumented executor died while looking up and freeing crystals / symbols', dict(tail=x.tail[-1200:]))
 
 
 # ------------------------------------------------------------------------------------------------------------
+def _merge(F, st, pay):
+    for k, v in pay['facts'].items():
+        F.ok(k, v)
+    F.samples += pay['samples']
+    for k, v in pay['st'].items():
+        if isinstance(v, (int, float)) and not isinstance(v, bool) and isinstance(st.get(k), (int, float)):
+            st[k] += v
+        elif v is not None:
+            st[k] = v
+    st['ctypes_calls'] = st.get('ctypes_calls', 0) + pay['calls']
+
+
+def _fresh_st():
+    return dict(fractions=0, fractions_finer_than_6_decimals=0, nuclide_lines=0, crystal_atoms=0)
+
+
 def main(tier):
     ck = common.Check('C15', tier)
     mac = refdata.Macros()
     X = xl.XL('shipped')
     F = Facts()
-    st = dict(fractions=0, fractions_finer_than_6_decimals=0, nuclide_lines=0, crystal_atoms=0, asan_calls=0,
-              worst_sum_deviation=None, worst_sum_entry=None)
+    st = dict(_fresh_st(), asan_calls=0, ctypes_calls=0, worst_sum_deviation=None, worst_sum_entry=None)
     nist_mac = {k[len('NIST_COMPOUND_'):]: v for k, v in mac.int.items() if k.startswith('NIST_COMPOUND_')}
     rn_mac = {k[len('RADIO_NUCLIDE_'):]: v for k, v in mac.int.items() if k.startswith('RADIO_NUCLIDE_')}
     if len(nist_mac) < 2 or len(rn_mac) < 2:
         raise common.Inconclusive('the macro probe found %d NIST_COMPOUND_* and %d RADIO_NUCLIDE_* macros' % (len(nist_mac), len(rn_mac)))
 
-    syms = check_elements(ck, X, F, tier)
-    nist_names, nist = check_indexed(ck, X, F, tier, 'nist', X.nist_list, X.nist, nist_mac, 'NIST_COMPOUND_')
-    check_compound_entries(ck, X, F, nist, syms, st)
-    nucl_names, nucl = check_indexed(ck, X, F, tier, 'nuclide', X.nuclide_list, X.nuclide, rn_mac, 'RADIO_NUCLIDE_')
-    check_nuclide_entries(ck, X, F, nucl, syms, st)
-    crystal_names = check_crystals(ck, X, F, tier, st)
+    # ---- deep copies first (children): they give the precise diagnosis if a lookup is not an independent copy -------------
+    seqs = {}
+    for tag in ('nist', 'nuclide', 'crystal'):
+        pay = run_child(ck, 'c15:deep-copy:crash:' + tag, 'running the mutate/free sequences on %s results' % tag,
+                        lambda c, tag=tag: deepcopy_child(X, tag, c))
+        if pay:
+            seqs[tag] = pay['sequences']; st['ctypes_calls'] += pay['calls']
+            F.ok('deep-copy:' + tag, pay['sequences'])
+    pay = run_child(ck, 'c15:deep-copy:crash:strings', 'running the mutate/free sequences on name lists and symbols', lambda c: strings_child(X, c))
+    if pay:
+        seqs['lists+symbols'] = pay['sequences']; st['ctypes_calls'] += pay['calls']
+        F.ok('deep-copy:strings', pay['sequences'])
+
+    # ---- catalogue readers: one child per catalogue (the convenience wrappers free what they look up, which kills the
+    #      process if a lookup is not an independent heap object) ------------------------------------------------------------
+    def reader(fn):
+        def body(c):
+            f, s, c0 = Facts(), _fresh_st(), X.calls
+            extra = fn(c, f, s)
+            return dict(facts=f.n, samples=f.samples, st=s, calls=X.calls - c0, extra=extra)
+        return body
+
+    def r_elements(c, f, s):
+        return dict(syms=check_elements(c, X, f, tier))
+    pay = run_child(ck, 'c15:catalogue-read:crash:elements', 'reading the element table', reader(r_elements))
+    syms = {}
+    if pay:
+        _merge(F, st, pay); syms = {int(k): v for k, v in pay['extra']['syms'].items()}
+
+    def r_nist(c, f, s):
+        names, ent = check_indexed(c, X, f, tier, 'nist', X.nist_list, X.nist, nist_mac, 'NIST_COMPOUND_')
+        check_compound_entries(c, X, f, ent, syms, s)
+        return dict(names=names, entries=ent)
+    pay = run_child(ck, 'c15:catalogue-read:crash:nist', 'reading the NIST compound catalogue', reader(r_nist))
+    nist_names, nist = [], {}
+    if pay:
+        _merge(F, st, pay); nist_names = pay['extra']['names']; nist = {int(k): v for k, v in pay['extra']['entries'].items()}
+
+    def r_nucl(c, f, s):
+        names, ent = check_indexed(c, X, f, tier, 'nuclide', X.nuclide_list, X.nuclide, rn_mac, 'RADIO_NUCLIDE_')
+        check_nuclide_entries(c, X, f, ent, syms, s)
+        return dict(names=names, entries=ent)
+    pay = run_child(ck, 'c15:catalogue-read:crash:nuclide', 'reading the radionuclide catalogue', reader(r_nucl))
+    nucl_names, nucl = [], {}
+    if pay:
+        _merge(F, st, pay); nucl_names = pay['extra']['names']; nucl = {int(k): v for k, v in pay['extra']['entries'].items()}
+
+    def r_crystal(c, f, s):
+        names = check_crystals(c, X, f, tier, s)
+        vol = {}
+        for nm in names:
+            g = X.get_crystal(nm)
+            if not is_err(g):
+                vol[nm] = g[1]['volume']; X.free_crystal(g[0])
+        return dict(names=names, vol=vol)
+    pay = run_child(ck, 'c15:catalogue-read:crash:crystal', 'reading the crystal catalogue', reader(r_crystal))
+    crystal_names, crystal_vol = [], {}
+    if pay:
+        _merge(F, st, pay); crystal_names = pay['extra']['names']; crystal_vol = pay['extra']['vol']
+
     if nist:
         i = sorted(nist)[(common.seed() * 37) % len(nist)]
         F.samples.append(dict(fact='NIST entry: list[i] == by-index(i).name == by-name(list[i]).name, macro', index=i, name=nist[i]['name'],
                               macro=[('NIST_COMPOUND_' + m) for m, v in nist_mac.items() if v == i], sum_of_fractions=math.fsum(nist[i]['massFractions']),
                               Elements=nist[i]['Elements'], density=nist[i]['density']))
 
-    # ---- deep copies (children) -----------------------------------------------------------------------
-    seqs = {}
-    child_calls = 0
-    jobs = [('nist', [(i, i) for i in range(len(nist_names))] + [(i, nist_names[i]) for i in range(len(nist_names))] +
-             [(nist_names[i], nist_names[i]) for i in range(0, len(nist_names), 9)]),
-            ('nuclide', [(i, i) for i in range(len(nucl_names))] + [(i, nucl_names[i]) for i in range(len(nucl_names))] +
-             [(nucl_names[i], nucl_names[i]) for i in range(len(nucl_names))]),
-            ('crystal', [(n, n) for n in crystal_names])]
-    for tag, keys in jobs:
-        if not keys:
-            continue
-        d, c = run_child(ck, tag, lambda w, tag=tag, keys=keys: deepcopy_child(X, tag, keys, w))
-        seqs[tag] = d; child_calls += c
-        F.ok('deep-copy:' + tag, d)
-    d, c = run_child(ck, 'strings', lambda w: strings_child(X, 'strings', w))
-    seqs['lists+symbols'] = d; child_calls += c
-    F.ok('deep-copy:strings', d)
-    # the parent's view of the catalogue is unchanged after the children (separate address spaces: sanity only)
-
-    # ---- the same lookups under ASan+UBSan --------------------------------------------------------------
-    crystal_vol = {}
-    for nm in crystal_names:
-        g = X.get_crystal(nm)
-        if not is_err(g):
-            crystal_vol[nm] = g[1]['volume']; X.free_crystal(g[0])
+    # ---- the same lookups under ASan+UBSan (separate executor processes) ---------------------------------------------------
     asan_pass(ck, F, nist_names, nist, nucl_names, nucl, [n for n in crystal_names if n in crystal_vol], crystal_vol, syms, st)
 
     total = sum(F.n.values())
-    if len(nist) < 2 or len(nucl) < 2 or len(crystal_names) < 2 or len(syms) < 2:
+    if (len(nist) < 2 or len(nucl) < 2 or len(crystal_names) < 2 or len(syms) < 2) and not ck.viol:
         raise common.Inconclusive('a catalogue could not be enumerated (%d compounds, %d nuclides, %d crystals, %d symbols)' %
                                   (len(nist), len(nucl), len(crystal_names), len(syms)))
-    cov = dict(evaluations=int(X.calls + child_calls + st['asan_calls']), distinct_nontrivial=int(total),
+    cov = dict(evaluations=int(st['ctypes_calls'] + st['asan_calls']), distinct_nontrivial=int(total),
                rule='every symbol 1..107 (+ Z in [-3,125], every 1-2 letter and Uxx string), every NIST compound / radionuclide by list position, index '
                     '(-3..N+2 and INT extremes), name and published macro, every crystal by name; non-trivial = individual facts that held '
                     '(per entry: list==index, name==index, macro==entry, each entry invariant, each completed mutate/free sequence, each '
@@ -783,4 +874,5 @@ def main(tier):
     return ck.finish(cov, ['macro values come from a compiled probe of the public headers; macro names are matched to API names after reducing both '
                            'to upper-case alphanumerics (checked to be injective on the catalogue)',
                            'ctypes structure layouts in xl.py mirror include/xraylib-*.h',
-                           'mass fractions are printed with 6 decimals: tolerance n x 0.5e-6'])
+                           'mass fractions are printed with 6 decimals: tolerance n x 0.5e-6',
+                           'all ctypes work runs in forked children; a child that dies is reported as a violation with its last announced step'])
